@@ -585,6 +585,17 @@ func (e *Env) ghostSorts(g *GhostDecl) (ks, vs string, vt types.Type) {
 	return
 }
 
+// goType is parseType for dynamic types of interface values: "bool" and "int" are the Go types.
+func (e *Env) goType(s string) types.Type {
+	switch strings.TrimSpace(s) {
+	case "bool":
+		return types.Typ[types.Bool]
+	case "int":
+		return types.Typ[types.Int]
+	}
+	return e.parseType(s)
+}
+
 // parseType parses a Go-like type expression; returns nil for the mathematical "int"/"bool".
 func (e *Env) parseType(s string) types.Type {
 	s = strings.TrimSpace(s)
@@ -1333,6 +1344,13 @@ func (e *Env) evalCall(n *ECall) SVal {
 		}
 		dt := vc.load(e.stOf(v), l)
 		e.typeSide(dt, pt.Elem())
+		// a reference stored in the memory of a state was allocated before that state
+		switch pt.Elem().Underlying().(type) {
+		case *types.Slice:
+			e.addSide(fmt.Sprintf("(< (base (s-arr %s)) %s)", dt, e.stOf(v).alloc), "")
+		case *types.Pointer, *types.Map:
+			e.addSide(fmt.Sprintf("(< (base %s) %s)", dt, e.stOf(v).alloc), "")
+		}
 		return SVal{t: dt, typ: pt.Elem(), sort: vc.d.sortOf(pt.Elem()), st: v.st}
 	case "container":
 		// container(p, "T", "f"): the *T whose struct-typed field f is stored at address p
@@ -1352,7 +1370,7 @@ func (e *Env) evalCall(n *ECall) SVal {
 		e.fail("container: no field %s", fname)
 	case "box":
 		// box(v, T): the interface value holding v with dynamic type T (what the conversion to interface{} yields)
-		T := e.parseType(typeArg(n.Args[1]))
+		T := e.goType(typeArg(n.Args[1]))
 		v := e.eval(n.Args[0])
 		bn := vc.boxName(T)
 		srt := vc.d.sortOf(T)
@@ -1364,11 +1382,11 @@ func (e *Env) evalCall(n *ECall) SVal {
 	case "typeis":
 		// typeis(x, T): dynamic type of interface value x is T
 		v := e.eval(n.Args[0])
-		T := e.parseType(typeArg(n.Args[1]))
+		T := e.goType(typeArg(n.Args[1]))
 		return mathBool(fmt.Sprintf("(and (> %s 0) (= (typeof %s) %d))", v.t, v.t, vc.d.typeTag(T)))
 	case "unbox":
 		v := e.eval(n.Args[0])
-		T := e.parseType(typeArg(n.Args[1]))
+		T := e.goType(typeArg(n.Args[1]))
 		bn := vc.boxName(T)
 		srt := vc.d.sortOf(T)
 		vc.d.declFun(bn, fmt.Sprintf("(declare-fun %s (%s) Int)", bn, srt))
